@@ -51,6 +51,7 @@ var packages = native.Packages{
 			"Stop":        func(env native.Env) { env.Stop(errStop) },
 			"Fatal":       func(env native.Env) { env.Fatal("fatal by x.Fatal") },
 			"NilMapWrite": func() { var m map[int]int; m[1] = 1 },
+			"Probe":       func() { recordProbe() },
 		},
 	},
 }
@@ -240,6 +241,9 @@ func run(c *hx.Ctx) error {
 		return err
 	}
 	if err := depthCases(c); err != nil {
+		return err
+	}
+	if err := boundaryCases(c); err != nil {
 		return err
 	}
 	if err := urlCases(c); err != nil {
